@@ -8,6 +8,10 @@ CLAIMED = {
    technique="deterministic simulation: seeded files on simulated storage, enumerated crash points (cut at every byte) and sync-marker faults, oracle from an independent parser",
    text="Per sampled container file every truncation offset and every sync-marker bit/replacement is injected into the simulated storage and both readers are driven to completion; the yielded records must be a prefix of what the independent parser recovers, normal end only on block boundaries, altered markers always reported. Files are seeded samples (fastavro writer, append/write_block histories, foreign writer); enumeration is complete per file only.",
    note="trusted: refavro (independent parser) for block boundaries and records; pure-Python modules only; 'raises' = any exception class"),
+ "C07": dict(cat="exploration", ref="DESIGN.md 4 (C07)",
+   technique="deterministic simulation: seeded operation/fault histories (failed writes, restarts for append, block copies) on simulated and real streams against a list-of-records reference model",
+   text="Seeded histories over {create, write, failing write, flush, write_block from fastavro- and foreign-written donors, re-open for append with unrelated valid arguments, public writer() append} are applied to a BytesIO, a simulated append-mode file or a real 'a+b' file and to a reference model; after every flush and re-open the stream is read back and must equal the model exactly, header bytes unchanged. Sampling of an infinite history space: evidence, not proof.",
+   note="trusted: the reference model (a Python list), refavro.normal_eq for the documented normalisation; pure-Python modules only"),
 }
 
 NA = {
